@@ -422,6 +422,7 @@ pub fn run_slices(prop: &str, tier: Tier, seed: u64, total: u64, nw: u64, dir: &
         .collect();
     let mut found = Vec::new();
     let mut deaths = 0;
+    let mut too_many_deaths = false;
     // Backstop against runs that do not terminate: a run normally takes milliseconds;
     // if a worker's journal shows an open BEGIN and has not moved for this long the
     // worker is killed and the open run is reported like a process death.
@@ -475,7 +476,8 @@ pub fn run_slices(prop: &str, tier: Tier, seed: u64, total: u64, nw: u64, dir: &
                 Some(r) => {
                     deaths += 1;
                     if deaths > 40 {
-                        return Err("more than 40 worker deaths; giving up".into());
+                        // stop exploring, but report what was found: the deaths ARE the finding
+                        too_many_deaths = true;
                     }
                     let sc = engines::generate(prop, tier, seed, r);
                     found.push(FoundViolation {
@@ -490,7 +492,9 @@ pub fn run_slices(prop: &str, tier: Tier, seed: u64, total: u64, nw: u64, dir: &
                         release: std::env::var_os("SIM_MIX_RELEASE").is_some() && w % 2 == 1 && release_exe().is_some(),
                     });
                     skips[w].insert(r);
-                    children[w] = Some(spawn_worker(prop, tier, seed, w as u64, nw, total, dir, &skips[w]));
+                    if !too_many_deaths {
+                        children[w] = Some(spawn_worker(prop, tier, seed, w as u64, nw, total, dir, &skips[w]));
+                    }
                 }
                 None => {
                     let err = std::fs::read_to_string(dir.join(format!("stderr-{w}.log"))).unwrap_or_default();
@@ -507,7 +511,11 @@ pub fn run_slices(prop: &str, tier: Tier, seed: u64, total: u64, nw: u64, dir: &
     let mut hashes = BTreeMap::new();
     for w in 0..nw {
         let p = dir.join(format!("result-{w}.json"));
-        let b = std::fs::read(&p).map_err(|e| format!("read {p:?}: {e}"))?;
+        let b = match std::fs::read(&p) {
+            Ok(b) => b,
+            Err(_) if too_many_deaths => continue, // abandoned slice
+            Err(e) => return Err(format!("read {p:?}: {e}")),
+        };
         let r: WorkerResult = parse_json(&b).map_err(|e| format!("parse {p:?}: {e}"))?;
         stats.merge(r.stats);
         found.extend(r.found);
@@ -559,6 +567,7 @@ pub fn check(prop: &str, tier: Tier) -> i32 {
     let mut n_known = 0usize;
     let budget_total = if tier == Tier::Quick { 30 } else { 300 };
     let mut reported_invariants: BTreeMap<String, usize> = BTreeMap::new();
+    let mut nonrepro = 0usize;
     let replay_dir = PathBuf::from(format!("{}/replays", verif_root()));
     let ngroups = groups.len().max(1) as u64;
     let t_min = Instant::now();
@@ -580,9 +589,11 @@ pub fn check(prop: &str, tier: Tier) -> i32 {
         // confirm first, in a fresh process
         let confirmed = still_fails(prop, &inv, &f.scenario, &dir, f.release);
         if !confirmed {
-            println!("HARNESS-ERROR violation of {prop}/{inv} found in run {} does not reproduce in a fresh process; treating as harness nondeterminism", f.run);
-            let _ = std::fs::remove_dir_all(&dir);
-            return 2;
+            // never reported as a violation; if nothing reproducible is found either, the run is a harness error
+            println!("note: a violation of {prop}/{inv} seen in run {} does not reproduce in a fresh process (not reported)", f.run);
+            nonrepro += 1;
+            *reported_invariants.entry(inv.clone()).or_insert(1) -= 1;
+            continue;
         }
         let spent = t_min.elapsed().as_secs();
         let (min_sc, complete) = if spent >= budget_total {
@@ -653,6 +664,9 @@ pub fn check(prop: &str, tier: Tier) -> i32 {
     );
     if n_viol > 0 {
         1
+    } else if nonrepro > 0 {
+        println!("HARNESS-ERROR {nonrepro} violation(s) were seen that do not reproduce in a fresh process and nothing reproducible was found; treating as harness nondeterminism");
+        2
     } else {
         0
     }
